@@ -2,7 +2,7 @@
 import srvprops
 
 PROP = "C17"
-THEOREMS = ["C17_direct_outputs_exact", "C17_direct_once_per_connection", "C17_direct_only_listed_users", "C17_client_direct_forwarded", "C17_client_direct_ack_iff_valid", "C17_m2s_direct_exact", "C17_source_no_lossy_map_lookup"]
+THEOREMS = ["C17_direct_outputs_exact", "C17_direct_once_per_connection", "C17_direct_only_listed_users", "C17_client_direct_forwarded", "C17_client_direct_ack_iff_valid", "C17_m2s_direct_exact", "C17_source_no_lossy_map_lookup", "C17_conc_direct_exact"]
 
 
 LINK_NOTE = "Modulator-link stage: the real S2M/M2S dispatchers (crates/modulator/src/conn.rs) behind the real connection engine are fed raw byte chunks (handshakes with right/wrong/missing secret and version, the whole three-link vocabulary in each phase, payloads, scripted modulator outcomes) and compared chunk by chunk with Model/Link.v inside coqc (Conf/LinkConf.link_conf); the real S2mClient (crates/modulator/src/client.rs) is run against a scripted wire peer (sensible, contradictory, mis-correlated, malformed, missing replies, dropped links) and each call's result is compared with Model/Link.v's reply mapping (Conf/LinkConf.client_conf); a share of the server histories runs with the real S2M/M2S wire path between server and modulator (unix sockets)."
